@@ -1,0 +1,42 @@
+//go:build verif
+// +build verif
+
+package ipfscluster
+
+// Verification hooks for property C10 (distance checker of util.go). Code is
+// only added here; nothing of the package is changed.
+
+import (
+	cid "github.com/ipfs/go-cid"
+	peer "github.com/libp2p/go-libp2p-core/peer"
+)
+
+// VerifXor exposes xor() of util.go on raw 32-byte arrays.
+func VerifXor(a, b [32]byte) [32]byte { return xor(distance(a), distance(b)) }
+
+// VerifDistanceChecker builds a distanceChecker for `local` with the candidate
+// list `others` (what getTrustedPeers returns) and a cache that already holds
+// the entries of `seed` (peer hashes as the checker itself would have stored
+// them; may be empty). It then asks isClosest for every cid of `cids`, in
+// order, ON THE SAME checker (the cache is shared by the calls, as in one run
+// of the alert handler or of StateSync), and returns the answers together with
+// the cache contents afterwards.
+func VerifDistanceChecker(local peer.ID, others []peer.ID, seed map[peer.ID][32]byte, cids []cid.Cid) ([]bool, map[peer.ID][32]byte) {
+	dc := distanceChecker{
+		local:      local,
+		otherPeers: others,
+		cache:      make(map[peer.ID]distance, len(others)+1),
+	}
+	for p, h := range seed {
+		dc.cache[p] = distance(h)
+	}
+	res := make([]bool, len(cids))
+	for i, c := range cids {
+		res[i] = dc.isClosest(c)
+	}
+	after := make(map[peer.ID][32]byte, len(dc.cache))
+	for p, h := range dc.cache {
+		after[p] = [32]byte(h)
+	}
+	return res, after
+}
